@@ -72,6 +72,13 @@ class TaskScheduler(object):
             if task.is_computed():
                 break
             self._continue_with_batch()
+        if not self._tasks and self.active_task is None:
+            # The outermost computation of this thread has ended. Batches that are still
+            # scheduled can only serve tasks that were abandoned (e.g. their awaiting task was
+            # failed by a context while they were blocked); don't let the next computation
+            # flush them. Every pass of _execute re-schedules the batches of all items that are
+            # still awaited, so nothing that is needed is lost.
+            self._batches.clear()
 
     def _execute(self, root_task):
         """Implements task execution loop.
